@@ -496,6 +496,12 @@ func routeOverrideShape(p *Program, en ssa.Value, d *Dispatcher, facts map[*ssa.
 			if !ptrNonNil(pred) {
 				return false, "the route's setting is dereferenced on an edge where the pointer was not tested non-nil"
 			}
+			// the override must be reachable for a selected route: no `route == nil` on that edge
+			for f := range facts[pred] {
+				if bo, ok := f.Cond.(*ssa.BinOp); ok && f.Pol && bo.Op == token.EQL && isNilConst(bo.Y) && p.isVar(bo.X, d.Route) {
+					return false, "the route's setting is only consulted where the route is nil: for a selected route the override never applies"
+				}
+			}
 			sawRoute = true
 			continue
 		}
